@@ -791,7 +791,7 @@ def operator_to_BlockSeries(
                 eval=lambda *index: operator[index[2:]],
                 shape=(1, 1),
                 n_infinite=operator.n_infinite,
-                dimension_names=symbols,
+                dimension_names=operator.dimension_names,
                 name=name or operator.name,
             )
 
@@ -863,7 +863,7 @@ def operator_to_BlockSeries(
         eval=op_eval,
         shape=(n_blocks, n_blocks),
         n_infinite=operator.n_infinite,
-        dimension_names=symbols,
+        dimension_names=operator.dimension_names,
         name=name or operator.name,
     )
 
@@ -1308,7 +1308,7 @@ def _dict_to_BlockSeries(
     operator = copy(operator)
     key_types = set(isinstance(key, sympy.Basic) for key in operator.keys())
     if any(key_types):
-        operator, symbols = _symbolic_keys_to_tuples(operator)
+        operator, symbols = _symbolic_keys_to_tuples(operator, symbols)
 
     n_infinite = len(next(iter(operator.keys())))
     zeroth_order = (0,) * n_infinite
@@ -1330,6 +1330,7 @@ def _dict_to_BlockSeries(
 
 def _symbolic_keys_to_tuples(
     hamiltonian: dict[sympy.Basic, Any],
+    symbols: Sequence[sympy.Symbol] | None = None,
 ) -> tuple[dict[tuple[int, ...], Any], list[sympy.Basic]]:
     """Convert symbolic monomial keys to tuples of integers.
 
@@ -1342,6 +1343,9 @@ def _symbolic_keys_to_tuples(
         Dictionary with symbolic keys, each a monomial without numerical
         prefactor. The values can be either a `~numpy.ndarray`,
         `~scipy.sparse.csr_array`, or a list with the blocks of the Hamiltonian.
+    symbols :
+        Symbols in the order of the indices of the result. If not provided, the
+        symbols of the keys sorted by name.
 
     Returns
     -------
@@ -1353,9 +1357,12 @@ def _symbolic_keys_to_tuples(
         The tuple keys of ``new_hamiltonian`` are ordered according to this list.
 
     """
-    # Collect all symbols from the keys
-    symbols = list(set.union(*[key.free_symbols for key in hamiltonian.keys()]))
-    symbols = tuple(sorted(symbols, key=lambda x: x.name))
+    if symbols:
+        symbols = tuple(symbols)
+    else:
+        # Collect all symbols from the keys
+        symbols = list(set.union(*[key.free_symbols for key in hamiltonian.keys()]))
+        symbols = tuple(sorted(symbols, key=lambda x: x.name))
     if not all(symbol.is_commutative for symbol in symbols):
         raise ValueError("All symbols must be commutative.")
 
